@@ -191,19 +191,13 @@ def handleXfer : Handler := fun l =>
   | some (p, minSelf, isOper, redelU, redelM), some q, some denomOk, some amount, some aux =>
     let c := mkSt p minSelf isOper redelU redelM
     let (cls, c') := runKind kind c denomOk amount aux
-    -- the predicates only read the implementation's observation
+    -- the predicates only read the implementation's observation; a predicate failure is the sharper verdict and is
+    -- reported even when the model disagrees with the implementation on this case
     let pred := xferPreds kind p q minSelf isOper redelU redelM amount result
-    -- a failure of one of the statements that hold on the unchanged tree is the sharper verdict: report it even
-    -- when the model (which follows the unchanged tree) disagrees with the implementation on this case
-    let sharp := ["PREDFAIL C12_guards", "PREDFAIL C12_bonded_tokens_unchanged", "PREDFAIL C12_no_unbonding_entry",
-                  "PREDFAIL C12_moves_stake"].any (fun pre => pred.startsWith pre)
     if cls == "bad" then badInput "kind"
-    else if sharp then pred
+    else if pred != "ok" then pred
     else if cls != result then mismatch "result" cls result
-    else
-      let cmp := if result == "ok" then cmpSt kind c' q else "ok"
-      if cmp != "ok" then cmp
-      else pred
+    else if result == "ok" then cmpSt kind c' q else "ok"
   | _, _, _, _, _ => badInput "parse"
 
 /-- backing and empty-delegation predicates on all validators after an event that is not a conversion -/
@@ -256,29 +250,30 @@ def handleTally : Handler
       let vals := valsB.map (·.1)
       -- Σ tokens of the validators with status Bonded (the handler's set may be smaller: jailed in this block)
       let statusBondedTotal := valsB.foldl (fun acc (tv, sb) => if sb then acc + tv.tokens else acc) (0 : Int)
-      match tally cfg vals votes with
-      | none => if result == "panic" then predfail "C12_no_panic" "tally" else mismatch "result" "panic" result
-      | some o =>
-        if result != "ok" then mismatch "result" "ok" result
+      let bkUnbonded := votes.any fun t => (addrBkava vals.length t).any fun (v, a) => a > 0 && !inMap vals v
+      let counted := yes + abstain + no + veto
+      -- (2) predicates on the implementation's own numbers first
+      let pred : String :=
+        if result == "panic" then predfail "C12_no_panic" "tally"
+        else if counted > totalBonded then
+          predfail "C12_tally_le_bonded" (if bkUnbonded then "derivative-of-unbonded-validator" else "other")
         else
-          let cmp := allOk [expectEq "yes" (toString o.yes) (toString yes), expectEq "abstain" (toString o.abstain) (toString abstain),
-                            expectEq "no" (toString o.no) (toString no), expectEq "veto" (toString o.veto) (toString veto),
-                            -- monitored assumption: TotalBondedTokens = Σ tokens of bonded validators
-                            expectEq "totalBonded" (toString statusBondedTotal) (toString totalBonded)]
-          if cmp != "ok" then cmp
-          else
-            let bkUnbonded := votes.any fun t => (addrBkava vals.length t).any fun (v, a) => a > 0 && !inMap vals v
-            let counted := yes + abstain + no + veto
-            if counted > totalBonded then
-              predfail "C12_tally_le_bonded" (if bkUnbonded then "derivative-of-unbonded-validator" else "other")
-            else
-              -- "only while its validator is bonded": the result must equal the tally in which such derivatives carry nothing
-              match tally { cfg with tallySkipUnbonded := true } vals votes with
-              | some f =>
-                if f.yes != yes || f.abstain != abstain || f.no != no || f.veto != veto then
-                  predfail "C12_tally_only_bonded" "derivative-of-unbonded-validator"
-                else "ok"
-              | none => "ok"
+          -- "only while its validator is bonded": the result must equal the tally in which such derivatives carry nothing
+          match tally { cfg with tallySkipUnbonded := true } vals votes with
+          | some f =>
+            if f.yes != yes || f.abstain != abstain || f.no != no || f.veto != veto then
+              if bkUnbonded then predfail "C12_tally_only_bonded" "derivative-of-unbonded-validator" else "ok"
+            else "ok"
+          | none => "ok"
+      if pred != "ok" then pred else
+      -- (1) model vs implementation
+      match tally cfg vals votes with
+      | none => mismatch "result" "panic" result
+      | some o =>
+        allOk [expectEq "yes" (toString o.yes) (toString yes), expectEq "abstain" (toString o.abstain) (toString abstain),
+               expectEq "no" (toString o.no) (toString no), expectEq "veto" (toString o.veto) (toString veto),
+               -- monitored assumption: TotalBondedTokens = Σ tokens of the validators with status Bonded
+               expectEq "totalBonded" (toString statusBondedTotal) (toString totalBonded)]
     | _, _, _, _, _, _, _ => badInput "parse"
   | _ => badInput "arity"
 
